@@ -412,6 +412,11 @@ def _():
     return ([5, 0, 3, 8, 1], 7), {}
 
 
+@spec("subsample_seeded_heavy", ST + "subsample", np_seed=13)
+def _():
+    return ([9000000, 8000000, 3], 10), {}          # a deep repertoire: more than 2^24 cells in total
+
+
 @spec("powerlaw_sample_seeded", ST + "powerlaw_sample", np_seed=12)
 def _():
     return (), {"size": 20, "xmin": 2, "alpha": 2.5}
@@ -844,6 +849,22 @@ def _():
 @spec("clustermap_single_meta_seeded", PL + "similarity_clustermap", _clustergrid, np_seed=25, fig=True)
 def _():
     return (_pair_df(6),), {"alpha_column": None, "meta_columns": ["donor"], "cluster_kws": {"t": 2, "criterion": "distance"}}
+
+
+@spec("clustermap_short_mapper_list_seeded", PL + "similarity_clustermap", _clustergrid, np_seed=27, fig=True)
+def _():
+    import pyrepseq.plotting as pp
+    df = _pair_df(6)
+    df["epi"] = ["e1", "e2", "e1", "e1", "e2", "e3"]
+    # the caller's list of colour mappers is shorter than clusters + metadata columns
+    return (df,), {"meta_columns": ["donor", "epi"], "meta_to_colors": [pp.labels_to_colors_hls, pp.labels_to_colors_tableau]}
+
+
+@spec("clustermap_mapper_list_and_dict_seeded", PL + "similarity_clustermap", _clustergrid, np_seed=28, fig=True)
+def _():
+    import pyrepseq.plotting as pp
+    df = _pair_df(6)
+    return (df,), {"meta_columns": {"donor": "Donor"}, "meta_to_colors": [pp.labels_to_colors_hls, pp.labels_to_colors_hls], "cluster_kws": {"t": 3, "criterion": "distance"}}
 
 
 @spec("clustermap_callers_dicts_seeded", PL + "similarity_clustermap", _clustergrid, np_seed=26, fig=True)
